@@ -555,7 +555,7 @@ func H_C02_PackedRef_Fixed64() {
 
 func H_C02_PackedRef_Bool() {
 	tag := c01Tag()
-	n := c02FixedCount()
+	n := c01PackedRange(1, 8+4*verifTier()) // every element doubles the decoder's paths (its value is a branch)
 	vs := make([]bool, n)
 	payload := make([]byte, 0, 400)
 	for i := range vs {
